@@ -45,9 +45,28 @@ if marker in s:
 out = [s.rstrip(), "", marker.strip(), "",
        "Generated from `docs/design/<id>.md` (written with each property; `tools/mkdesign.py`). Properties without a file here",
        "follow their section-5 design; what each check covers is also in `props/<id>.json`.", ""]
-for f in sorted(glob.glob(os.path.join(ROOT, "docs", "design", "C*.md"))):
-    body = open(f).read().strip()
-    body = re.sub(r"^(#+) ", lambda m: "#" * (len(m.group(1)) + 2) + " ", body, flags=re.M)
-    out += [body, ""]
+written = {os.path.basename(f)[:-3]: f for f in glob.glob(os.path.join(ROOT, "docs", "design", "C*.md"))}
+for pf in sorted(glob.glob(os.path.join(ROOT, "props", "C*.json"))):
+    pid = os.path.basename(pf)[:-5]
+    if pid in written:
+        body = open(written[pid]).read().strip()
+        body = re.sub(r"^(#+) ", lambda m: "#" * (len(m.group(1)) + 2) + " ", body, flags=re.M)
+        out += [body, ""]
+        continue
+    # no hand-written note: summarise from props/<id>.json and known_findings/<id>.json
+    c = json.load(open(pf))
+    kf = os.path.join(ROOT, "known_findings", pid + ".json")
+    fs = json.load(open(kf))["findings"] if os.path.exists(kf) else []
+    out += ["### %s (as built, from props/%s.json)" % (pid, pid), "", c.get("explanation", ""), "",
+            "*Level:* " + c.get("level_note", ""), "", "*Assumptions / not covered:*"]
+    out += ["- " + a for a in c.get("assumptions", [])]
+    known = [f for f in fs if f.get("status") == "known"]
+    if known:
+        out += ["", "*Known findings (%d):*" % len(known)]
+        for f in known[:12]:
+            out.append("- `%s` — %s" % (f["id"], f["what"][:220]))
+        if len(known) > 12:
+            out.append("- ... %d more in `known_findings/%s.json`" % (len(known) - 12, pid))
+    out.append("")
 open(p, "w").write("\n".join(out) + "\n")
 print("DESIGN.md rebuilt with", len(glob.glob(os.path.join(ROOT, "docs", "design", "C*.md"))), "property notes")
